@@ -569,9 +569,9 @@ def _ds_cases(rng, N):
     return out
 
 
-def _pair(rng, coplanar_only=False):
+def _pair(rng, coplanar_only=False, g=None):
     """two image geometries: same plane (shifted/scaled/rotated in plane/flipped) or not"""
-    g = _geom(rng)
+    g = g or _geom(rng)
     o = [F(x) for x in g['ori']]
     rv, cv = o[:3], o[3:]
     n = _cross(rv, cv)
@@ -829,11 +829,21 @@ def _pick_dtype(rng):
                        'int64'])
 
 
-def _pair_sub(rng):
+def _wide(dt):
+    return ALL_DTYPES[dt][1] >= 32 and dt in INDEX_DTYPES
+
+
+def _geom_for(rng, dt):
+    """indices beyond 2^16 only on axis-aligned power-of-two geometries, where float64 arithmetic is exact (an oblique
+    affine carries 1e-16 cross terms that a 1e9 index turns into 1e-7)"""
+    return _geom(rng, 'axis', True) if _wide(dt) else _geom(rng)
+
+
+def _pair_sub(rng, g=None):
     """coplanar pair on which rounding is robust: integer relations, or a shift by a non-integer number of pixels
     whose fractional part stays 1/8 away from the half"""
     while True:
-        g, g2, rel = _pair(rng, coplanar_only=True)
+        g, g2, rel = _pair(rng, coplanar_only=True, g=g)
         if rel in INTEGER_RELS:
             break
     if rel in ('same', 'shift') and rng.random() < 0.4:
@@ -846,18 +856,18 @@ def _pair_sub(rng):
 def _dtype_cases(rng, N):
     out = []
     for _ in range(24 * N):                      # PixelToReference on every index dtype / layout
-        g = _geom(rng)
         dt = _pick_dtype(rng)
+        g = _geom_for(rng, dt)
         out.append({'kind': 'p2r_dtype', 'g': g, 'w': 2, 'dt': dt, 'layout': rng.choice(LAYOUTS),
                     'pts': _dt_pts(rng, dt, rng.randint(0, 4))})
     for _ in range(54 * N):                      # PixelToPixel, rounded (default) and not
+        dt = _pick_dtype(rng)
         if rng.random() < 0.8:
-            g, g2, rel = _pair_sub(rng)
+            g, g2, rel = _pair_sub(rng, _geom_for(rng, dt))
             rnd = rng.random() < 0.8
         else:
-            g, g2, rel = _pair(rng)
+            g, g2, rel = _pair(rng, g=_geom_for(rng, dt))
             rnd = rel in INTEGER_RELS and rng.random() < 0.5
-        dt = _pick_dtype(rng)
         out.append({'kind': 'p2p_dtype', 'g': g, 'g_to': g2, 'rel': rel, 'w': 2, 'round': rnd, 'dt': dt,
                     'layout': rng.choice(LAYOUTS), 'pts': _dt_pts(rng, dt, rng.randint(1, 4))})
     for dt in OTHER_DTYPES:                      # float / bool arrays: TypeError from the call
